@@ -8,7 +8,7 @@
    reference vanilla client that decodes the BYTES of player-info update / remove packets and
    applies them; [view] is the proxy's Entries() as the client would show it. *)
 From Coq Require Import List NArith ZArith Bool String.
-From Verif Require Import Base.Hex Base.Assoc Model.TabList Proofs.C28_Struct Proofs.C28.
+From Verif Require Import Base.Hex Base.Assoc Model.TabList Proofs.C28_Struct Proofs.C28_Wire Proofs.C28.
 Import ListNotations.
 Open Scope N_scope.
 
@@ -35,6 +35,38 @@ Proof.
   exact (C28_struct ver tbl h [] [] (fun _ => eq_refl) W k).
 Qed.
 Print Assumptions C28_from_empty.
+
+(* The property itself, through the BYTES: for every version, display-name table and history that is
+   well-formed (sizes within the protocol's limits: names at most 16 characters, at most 16
+   properties, 32-bit latencies / game modes / list orders, ids below 2^128, fewer than 2^31 entries,
+   backend action sets valid for the version; [tbl_ok]: the decoder delimits the table's chat
+   components exactly), the reference vanilla client can decode every packet the viewer receives
+   from the demanded tab list, and the state it ends in is, entry for entry, the proxy's view. *)
+Theorem C28 : forall ver tbl h,
+  tbl_ok ver tbl -> wf_hist ver tbl [] h ->
+  exists c, client_after ver [] (packets spec_tcfg ver tbl [] h) = Some c /\
+            forall k, aget k (view ver tbl (proxy_after spec_tcfg ver tbl [] h)) = aget k c.
+Proof. exact C28_wire. Qed.
+Print Assumptions C28.
+
+(* the wire lemma it rests on: the vanilla decoder reads back what the canonical encoder writes
+   (fields of absent actions come back as the reader's defaults: [masked]) *)
+Theorem vanilla_decodes_canonical_upsert : forall ver order es,
+  wf_upsert ver order es ->
+  vanilla_decode_upsert ver (encode_upsert true order es) = Some (bits_of order, map (masked order) es).
+Proof. exact decode_encode_upsert. Qed.
+Print Assumptions vanilla_decodes_canonical_upsert.
+Theorem vanilla_decodes_remove : forall ids,
+  wf_remove ids -> vanilla_decode_remove (encode_remove ids) = Some ids.
+Proof. exact decode_encode_remove. Qed.
+Print Assumptions vanilla_decodes_remove.
+
+(* [tbl_ok] holds for every pre-1.20.3 (JSON string) component; for NBT components it is a premise
+   exercised by the correspondence (and by C28_demo / C28_refuted_undecodable below on a concrete one) *)
+Theorem json_components_are_delimited : forall ver s,
+  ver < 765 -> short 262144 s -> comp_ok ver (enc_string s).
+Proof. exact comp_ok_json. Qed.
+Print Assumptions json_components_are_delimited.
 
 (* vanilla's two passes over a packet (add all new players, then update) and gate's entry-after-entry
    ProcessUpdate give the same map *)
@@ -93,8 +125,8 @@ Print Assumptions C28_profile_change_lost.
 (* premises are met, through the bytes: a history with add, re-add, profile change, setters, a backend
    join and a removal; the reference client decodes everything and ends with the proxy's view *)
 Example C28_demo :
-  Forall (wf_top 765) demo_history /\
+  tbl_ok 765 [] /\ wf_hist 765 [] [] demo_history /\
   exists c, client_after 765 [] (packets spec_tcfg 765 [] [] demo_history) = Some c /\
             same_view (view 765 [] (proxy_after spec_tcfg 765 [] [] demo_history)) c = true /\
             map fst c = [2].
-Proof. split; [exact demo_wf|exact demo_agrees]. Qed.
+Proof. split; [exact (proj1 demo_wf_hist)|]. split; [exact (proj2 demo_wf_hist)|exact demo_agrees]. Qed.
